@@ -48,7 +48,10 @@ type c04Vec struct {
 	Aims []c04Aim `json:"aims"`
 }
 
-var c04Spellings = []string{"raw", "pctdot", "pctslash", "double", "mixed", "backslash", "nul", "unicode"}
+// "dup" (query parameters only): the parameter is given twice, a harmless value
+// first and the path-like value last; whichever occurrence a reader picks, nothing
+// outside the scope of the named object may be touched
+var c04Spellings = []string{"raw", "pctdot", "pctslash", "double", "mixed", "backslash", "nul", "unicode", "dup"}
 
 // c04Spell renders concrete segments in one spelling. The result is what goes
 // on the wire in a URL path, a query value or the copy-source header (all of
@@ -419,6 +422,11 @@ func (w *c04World) run(cs c04Case, rt *c04Route) (obs c04Obs, err error) {
 	if rt.Ctx == "xml" {
 		sp = "raw"
 	}
+	dup := sp == "dup"
+	if dup && rt.Ctx != "query" {
+		obs.Skipped = "the dup spelling applies to query parameters"
+		return obs, nil
+	}
 	wire := c04Spell(segs, sp)
 	obs.Wire = wire
 	literal := wire
@@ -478,6 +486,26 @@ func (w *c04World) run(cs c04Case, rt *c04Route) (obs c04Obs, err error) {
 	}
 
 	req := rt.Build(w, wire)
+	if dup {
+		// find the parameter that carries the value and put a harmless occurrence in front
+		const sentinel = "c04dupsentinel"
+		probe := rt.Build(w, sentinel)
+		name := ""
+		for _, kv := range strings.Split(probe.RawQuery, "&") {
+			if k, v, ok := strings.Cut(kv, "="); ok && v == sentinel {
+				name = k
+			}
+		}
+		if name == "" || req.RawQuery == "" {
+			obs.Skipped = "route has no single query parameter carrying the value"
+			return obs, nil
+		}
+		harmless := "c04plain"
+		if name == "versionId" {
+			harmless = "null"
+		}
+		req.RawQuery = name + "=" + harmless + "&" + req.RawQuery
+	}
 	req.Timeout = 15 * time.Second
 	cl := w.userCl
 	if cs.Who == "root" {
@@ -647,6 +675,15 @@ func c04Cases(c *core.Ctx, vecs []c04Vec, routes []c04Route, sidecar bool, maxLe
 				if r.Ctx == "xml" {
 					r = rs[(n+i+1)%len(rs)]
 				}
+				if sp == "dup" {
+					// every query route of the kind
+					for _, qr := range rs {
+						if qr.Ctx == "query" {
+							mk(sp, qr, who)
+						}
+					}
+					continue
+				}
 				mk(sp, r, who)
 			}
 			// the other caller
@@ -685,7 +722,7 @@ func c04Region(class string) (eff, target string) {
 }
 
 func C04(c *core.Ctx, replay string) {
-	c.Rule = "TLC enumerates, per client-controlled path-like parameter (11 kinds), every segment sequence up to the tier's depth over {name, '.', '..', empty} and binds the names to every planted target the raw join can reach (plus a fresh name); each (vector, aim) is sent in 8 spellings over the routes that carry the parameter, as the bucket owner and as root, against a gateway whose storage carries canaries in every area and beside the root. Non-trivial: a case whose literal value is not well-formed (dot / empty / NUL segments or a reserved name) and that the gateway answered 2xx or that changed or disclosed anything."
+	c.Rule = "TLC enumerates, per client-controlled path-like parameter (11 kinds), every segment sequence up to the tier's depth over {name, '.', '..', empty} and binds the names to every planted target the raw join can reach (plus a fresh name); each (vector, aim) is sent in 9 spellings (raw, percent-encoded dots / slashes, double-encoded, mixed, backslash, NUL, fullwidth dot, and - for query parameters - given twice with a harmless value first) over the routes that carry the parameter, as the bucket owner and as root, against a gateway whose storage carries canaries in every area and beside the root. Non-trivial: a case whose literal value is not well-formed (dot / empty / NUL segments or a reserved name) and that the gateway answered 2xx or that changed or disclosed anything."
 	c.Assumptions = []string{
 		"a location is 'changed' iff its type, content hash or user xattrs differ between byte-exact snapshots of the whole scratch tree (8 directory levels around the gateway root) taken before and after the request; timestamps are not compared",
 		"a reply 'discloses' a planted location iff it contains that location's content token, unique name or metadata token and the request did not",
